@@ -1,3 +1,5 @@
+\* simulated deep behaviours; the two Choice sets are narrowed to the alternatives the current implementation
+\* takes, only to waste fewer behaviours (a mismatch at a loose step of a simulated behaviour is inconclusive anyway)
 SPECIFICATION GSpec
 CONSTANTS
   Nodes = {"A", "B"}
@@ -12,8 +14,8 @@ CONSTANTS
   ReqConns <- OneConn
   ReqMods <- ModsB
   WaitSteps = {2, 12}
-  ReadErrChoice = {TRUE, FALSE}
-  GiveUpErrChoice = {TRUE, FALSE}
+  ReadErrChoice = {TRUE}
+  GiveUpErrChoice = {FALSE}
   Depth = 9
   Thin = 1
 INVARIANT EmitEnd
